@@ -162,6 +162,12 @@ class Harness:
                                              main_file="answer.py", main_code=self.src))
         self.sandbox = self.report["sandbox"]["sandbox"]
         self.sandbox.allowed_time = 5
+        # half of the files are graded with the HTML formatter on the report (what the web environments install):
+        # describing a failure must not depend on it
+        import os as _os
+        if _os.environ.get("VERIF_FORCE_HTML") or (len(self.src) + len(file.get("fns", []))) % 2:
+            from pedal.core.formatting import HtmlFormatter
+            self.report.set_formatter(HtmlFormatter(self.report))
         # the "real console" that run(real_io=True) echoes to (pedal remembers sys.stdout at import time)
         import io as _io
         from pedal.sandbox import mocked as _mocked
